@@ -448,6 +448,8 @@ def rule_bracket_swap(ctx):
 
 
 def run(ctx):
+    from . import edges
+    edges.rule_threshold_siblings(ctx, 'R01.13')     # one quantity, one literal, one line: SABACM1 is a corrector type in part1, part2 and synchronize
     rule_bisection_nan(ctx)
     tables.rule_tables(ctx, 'R03.1')
     callers = rule_scope(ctx)
